@@ -192,4 +192,131 @@ example : valueToBin (0:ℝ) 0.5 1.0 = 2 := by
   rw [bin_iff _ _ _ (by norm_num)]
   norm_num
 
+
+/-! ## grid files read back (CvModel/GridIO.lean) -/
+
+namespace IO
+open Cv.GridIO
+
+/-- a well-formed grid: one lower boundary, width and periodicity flag per dimension, positive sizes, `mult` values
+    per grid point -/
+structure WF (g : GridFile ℝ) : Prop where
+  lo : g.lo.length = g.nx.length
+  w : g.w.length = g.nx.length
+  per : g.per.length = g.nx.length
+  pos : ∀ n ∈ g.nx, 0 < n
+  data : g.data.length = npoints g.nx * g.mult
+
+/-- the enumeration of a grid with positive sizes visits at least `npoints` index vectors (exactly `npoints` when
+    there is at least one dimension; two copies of the empty index for the zero-dimensional grid) -/
+private theorem indices_length (nx : List Int) (hpos : ∀ n ∈ nx, 0 < n) : npoints nx ≤ (indices nx).length := by
+  by_cases hne : nx = []
+  · subst hne; decide
+  · have h3 := enumerate_all nx hne hpos (npoints nx + 1) (by unfold npoints; omega)
+    have : (enumerate nx (npoints nx + 1) (nx.map fun _ => 0)).length = (ntOf 1 nx).toNat := by
+      have := congrArg List.length h3
+      simpa using this
+    unfold indices
+    rw [this]
+    exact Nat.le_refl _
+
+/-- **multicolumn round trip**: a grid written in multicolumn form and read back has the same sizes, boundaries,
+    widths, periodicity flags and data -/
+theorem multicol_roundtrip (g : GridFile ℝ) (h : WF g) :
+    decodeMulticol g.mult (encodeMulticol g) = some g := by
+  obtain ⟨nx, lo, w, per, mult, data⟩ := g
+  obtain ⟨hlo, hw, hper, hpos, hdata⟩ := h
+  simp only at hlo hw hper hpos hdata
+  show decodeMulticol mult (Tok.hash :: Tok.int (nx.length : Nat) ::
+    ((List.range nx.length).flatMap (fun i =>
+      [Tok.hash, Tok.real (lo.getD i 0.0), Tok.real (w.getD i 1.0), Tok.int (nx.getD i 0),
+       Tok.int (if per.getD i false then 1 else 0)]) ++
+     ((indices nx).zipIdx 0).flatMap (fun p =>
+        (List.range nx.length).map (fun i => Tok.real (binToValue (lo.getD i 0.0) (w.getD i 1.0) (p.1.getD i 0))) ++
+        (List.range mult).map (fun m => Tok.real (data.getD (p.2 * mult + m) 0.0))))) = _
+  rw [decodeMulticol, Int.toNat_natCast]
+  rw [readDims_enc _ _ _ _ _ nx.length (by simp)]
+  simp only
+  have hn := indices_length nx hpos
+  have e1 : List.map (fun d : ℝ × ℝ × Int × Bool => d.2.2.1)
+            (List.map
+              (fun i => (lo.getD i 0.0, w.getD i 1.0, nx.getD i 0, (if per.getD i false = true then (1:Int) else 0) != 0))
+              (List.range nx.length)) = nx := by
+    rw [List.map_map]; exact getD_range nx 0 _ rfl
+  have e2 : List.map (fun d : ℝ × ℝ × Int × Bool => d.1)
+            (List.map
+              (fun i => (lo.getD i 0.0, w.getD i 1.0, nx.getD i 0, (if per.getD i false = true then (1:Int) else 0) != 0))
+              (List.range nx.length)) = lo := by
+    rw [List.map_map]; exact getD_range lo _ _ hlo
+  have e3 : List.map (fun d : ℝ × ℝ × Int × Bool => d.2.1)
+            (List.map
+              (fun i => (lo.getD i 0.0, w.getD i 1.0, nx.getD i 0, (if per.getD i false = true then (1:Int) else 0) != 0))
+              (List.range nx.length)) = w := by
+    rw [List.map_map]; exact getD_range w _ _ hw
+  have e4 : List.map (fun d : ℝ × ℝ × Int × Bool => d.2.2.2)
+            (List.map
+              (fun i => (lo.getD i 0.0, w.getD i 1.0, nx.getD i 0, (if per.getD i false = true then (1:Int) else 0) != 0))
+              (List.range nx.length)) = per := by
+    rw [List.map_map]
+    refine Eq.trans ?_ (getD_range per false _ hper)
+    apply List.map_congr_left
+    intro i _
+    show ((if per.getD i false = true then (1:Int) else 0) != 0) = per.getD i false
+    generalize per.getD i false = b
+    cases b <;> rfl
+  rw [e1, e2, e3, e4]
+  rw [readBody_enc nx.length mult (fun ix i => binToValue (lo.getD i 0.0) (w.getD i 1.0) (ix.getD i 0))
+    (fun j => data.getD j 0.0) (npoints nx) (indices nx) 0 hn]
+  simp only
+  rw [blocks_eq data _ mult (npoints nx) 0 (by rw [Nat.zero_add]; omega)]
+  simp [hdata]
+
+/-- **raw round trip** on a grid of the same shape -/
+theorem raw_roundtrip (g : GridFile ℝ) (h : WF g) (shape : GridFile ℝ) (hs : shape = { g with data := shape.data }) :
+    decodeRaw shape (encodeRaw g) = some g := by
+  have h1 : shape.nx = g.nx := by rw [hs]
+  have h2 : shape.mult = g.mult := by rw [hs]
+  unfold decodeRaw encodeRaw
+  rw [h1, h2, List.take_of_length_le (Nat.le_of_eq h.data)]
+  have := takeReals_map g.data _ h.data []
+  rw [List.append_nil] at this
+  rw [this, hs]
+  rfl
+
+/-- **restart round trip**: the parameter block re-creates sizes, boundaries and widths; periodicity and multiplicity
+    come from the reader's configuration -/
+theorem restart_roundtrip (g : GridFile ℝ) (h : WF g) :
+    decodeRestart g.per g.mult (encodeRestart g) = some g := by
+  have hz : List.zipWith (fun (lw : ℝ × ℝ) (n : Int) => Tok.real (lw.1 + lw.2 * (n : ℝ))) (g.lo.zip g.w) g.nx
+      = (List.zipWith (fun (lw : ℝ × ℝ) (n : Int) => lw.1 + lw.2 * (n : ℝ)) (g.lo.zip g.w) g.nx).map Tok.real := by
+    rw [List.map_zipWith]
+  have hzl : (List.zipWith (fun (lw : ℝ × ℝ) (n : Int) => lw.1 + lw.2 * (n : ℝ)) (g.lo.zip g.w) g.nx).length
+      = g.nx.length := by
+    simp [h.lo, h.w]
+  unfold encodeRestart
+  rw [hz]
+  simp only [List.append_assoc, List.cons_append, List.nil_append]
+  rw [decodeRestart, Int.toNat_natCast]
+  rw [takeReals_map _ _ h.lo]
+  simp only
+  rw [takeReals_map _ _ hzl]
+  simp only
+  rw [takeReals_map _ _ h.w]
+  simp only
+  rw [takeInts_map _ _ rfl]
+  simp only
+  exact raw_roundtrip g h _ rfl
+
+/-- a truncated raw stream is rejected, not padded -/
+theorem raw_truncated_rejected (g : GridFile ℝ) (h : WF g) (k : Nat) (hk : k < npoints g.nx * g.mult) :
+    decodeRaw g ((encodeRaw g).take k) = none := by
+  unfold decodeRaw
+  rw [takeReals_short _ _ (by
+    have := h.data
+    simp [encodeRaw]
+    omega)]
+  rfl
+
+end IO
+
 end Cv.C15
